@@ -3,12 +3,22 @@
 #include <stdlib.h>
 #include <string.h>
 #include <unistd.h>
+#include <sys/time.h>
 
 #include "driver.h"
 
 int harness_flavour = 0;
 /* progress heartbeat of long loops inside an adapter: the watchdog then bounds every single library call, not the loop */
-void driver_kick(void) { alarm(20); }
+/* The watchdog counts the CPU time of this process (20 s per library call), not wall-clock time: a machine that is busy, or a
+ * virtual machine that is paused for a snapshot, must not look like a call that does not return.  (A wall-clock limit of half an
+ * hour per call stays as a backstop for a call that blocks without using the CPU.) */
+static void watchdog(long cpu_s, unsigned wall_s)
+{
+    struct itimerval it = { { 0, 0 }, { cpu_s, 0 } };
+    setitimer(ITIMER_PROF, &it, NULL);
+    alarm(wall_s);
+}
+void driver_kick(void) { watchdog(20, 1800); }
 volatile int asan_reports = 0;
 static long lineno = 0;
 static char tag[256] = "-";
@@ -63,10 +73,10 @@ static void on_signal(int sig)
 {
     char buf[400];
     int n = snprintf(buf, sizeof buf, "%s %ld %s signal=%d\n",
-                     sig == SIGALRM ? "HANG" : "CRASH", lineno, tag, sig);
+                     (sig == SIGALRM || sig == SIGPROF) ? "HANG" : "CRASH", lineno, tag, sig);
     fflush(stdout);
     if (write(1, buf, (size_t)n) < 0) {}
-    _exit(sig == SIGALRM ? 3 : 4);
+    _exit((sig == SIGALRM || sig == SIGPROF) ? 3 : 4);
 }
 
 int ev_is(const Ev *ev, const char *name) { return strcmp(ev->name, name) == 0; }
@@ -163,6 +173,7 @@ int main(int argc, char **argv)
     __sanitizer_set_death_callback(on_death);
 #endif
     signal(SIGALRM, on_signal);
+    signal(SIGPROF, on_signal);
     static char obuf[1 << 16];
     setvbuf(stdout, obuf, _IOFBF, sizeof obuf);
 
@@ -201,11 +212,11 @@ int main(int argc, char **argv)
 
         int before = asan_reports;
         /* watchdog: 20 s per call; value sweeps executed inside an adapter get half an hour */
-        alarm(20);          /* value sweeps inside an adapter re-arm it as they make progress (driver_kick) */
+        watchdog(20, 1800);          /* value sweeps inside an adapter re-arm it as they make progress (driver_kick) */
         in_exec = 1;
         adapter_exec(&ev);
         in_exec = 0;
-        alarm(0);
+        watchdog(0, 0);
         executed++;
         int asan_hit = asan_reports != before;
         if (asan_hit) {
